@@ -49,6 +49,9 @@ if git -C /repo diff --quiet; then
   git -C /repo apply "$OUT/patch.diff"
   for P in "$@"; do
     (cd /verif && ./bin/govc check -prop "$P" -no-evidence 2>&1 | grep -E "FAIL|VIOLATION|BROKEN|^govc" | cut -c1-240 | sed "s/^/[$P] /") >> "$RES"
+    if [ "$P" = "C16" ]; then
+      (cd /verif && CORPUS_NO_EVIDENCE=1 tools/corpus_check.sh "$P" 2>&1 | grep -E "FAIL|VIOLATION|BROKEN|^corpus:" | cut -c1-240 | sed "s/^/[$P] /") >> "$RES"
+    fi
   done
   git -C /repo checkout -- .
 else
